@@ -8,6 +8,10 @@ Inductive case :=
 (* an operation list driven through the real Libp2pCommunication (Subscribe / UnSubscribe /
    GetSubscribers / ProcessMessagesFromStream); u of every Sub is the one observed in the returned id *)
 | Ops (U : univ) (ops : list op) (impl : list obs)
+(* a table built by ops (Sub / Unsub), then the messages msgs written to one or several inbound
+   streams and decoded while the receivers read late / in an arbitrary order; impl = for every
+   channel of chans (all channels of ops) what it had received when everything was delivered *)
+| Fan (ops : list op) (msgs : list msg) (chans : list N) (impl : list (list msg))
 (* SubscriptionID(Sprintf("%s-%d-%d", s, t, u)).Unwrap() *)
 | Unw (s : string) (t u : N) (impl : option (string * N * string))
 (* Unwrap of an arbitrary string *)
@@ -37,18 +41,25 @@ Definition types_declared (ops : list op) : bool :=
                     | Unsub _ => true
                     end) ops.
 
+Definition msgs_declared (msgs : list msg) : bool :=
+  forallb (fun m => snd (fst (fst m)) <=? unknown_type) msgs.
+
 Definition agree (c : case) : bool :=
   match c with
   | Ops U ops impl => obsl_eqb (trace_c unwrap U c_init ops) impl
+  | Fan ops msgs chans impl => fan_ok (recv_c (fst (run_c unwrap c_init ops)) msgs) chans impl
   | Unw s t u impl => res_eqb (unwrap (sub_id s t u)) impl
   | Raw id impl => res_eqb (unwrap id) impl
   end.
 
 (* The specification: views and receipts are those of the live-subscription list (nothing about
-   ids or the unique component); Unwrap inverts NewSubscriptionID for declared types. *)
+   ids or the unique component); for messages in flight together, per channel the multiset of
+   (session, type, payload, sender) received is the one the live subscriptions entitle it to; Unwrap inverts NewSubscriptionID for declared types. *)
 Definition judge (c : case) : bool :=
   match c with
   | Ops U ops impl => if types_declared ops then judge_ops U ops impl else true
+  | Fan ops msgs chans impl =>
+      if types_declared ops && msgs_declared msgs then judge_fan ops msgs chans impl else true
   | Unw s t u impl => unwrap_ok s t u impl
   | Raw _ _ => true
   end.
@@ -62,6 +73,8 @@ Definition tag (c : case) : N :=
   match c with
   | Ops _ ops _ => (if has_hy_session ops then 1 else 0) + (if has_unsub ops then 2 else 0)
                    + (if wf_ops ops then 0 else 4)
+  | Fan ops msgs _ _ => 16 + (if has_hy_session ops then 1 else 0) + (if has_unsub ops then 2 else 0)
+                        + (if wf_ops ops then 0 else 4)
   | Unw s t u _ => match unwrap (sub_id s t u) with Some _ => 8 | None => 9 end
   | Raw id _ => match unwrap id with Some _ => 10 | None => 11 end
   end.
